@@ -197,7 +197,7 @@ type c30Script struct {
 	Mode     string    `json:"mode"` // script | random
 	Seed     uint64    `json:"seed"`
 	MaxSteps int       `json:"max_steps"`
-	Guarded  bool      `json:"guarded"`  // random: only take steps allowed by the guard of C30_partial
+	Flavor   string    `json:"flavor"`   // random: guarded (only steps allowed by the guard of C30_partial) | claimless (no deactivation threads) | overlap (no claim-less step)
 	FailPct  int       `json:"fail_pct"` // random: probability (percent) of an injected failure at a step
 	Steps    []c30Step `json:"steps"`
 }
@@ -367,7 +367,10 @@ func (r *c30Run) noteLeader(n int, ev vregEvent) {
 }
 
 // enabled lists the steps the random walk may take now.
-func (r *c30Run) enabled(rng *verifRNG, guarded bool, failPct int) []c30Step {
+func (r *c30Run) enabled(rng *verifRNG, flavor string, failPct int) []c30Step {
+	noOverlap := flavor != "overlap"
+	noClaimless := flavor != "claimless"
+	noDeact := flavor == "claimless"
 	var out []c30Step
 	key := r.id.String()
 	outcome := func() bool { return rng.intn(100) >= failPct }
@@ -379,18 +382,18 @@ func (r *c30Run) enabled(rng *verifRNG, guarded bool, failPct int) []c30Step {
 			}
 		}
 		if !r.leaderBusy(n) {
-			if !guarded || running == 0 {
+			if !noOverlap || running == 0 {
 				out = append(out, c30Step{A: "start", N: n})
 			}
 		} else {
 			th := r.leader[n]
 			claimless := th.Last.Blocked == "get" && r.afterLostClaim(n) && r.w.reg.grainOwner(key) == -1
-			if !(guarded && claimless) {
+			if !(noClaimless && claimless) {
 				out = append(out, c30Step{A: "lead", N: n, OK: outcome()})
 			}
 		}
-		if pid, ok := sys.grains.Get(key); ok && pid.isActive() {
-			if !guarded || (!r.leaderBusy(n) && running == 0) {
+		if pid, ok := sys.grains.Get(key); ok && pid.isActive() && !noDeact {
+			if !noOverlap || (!r.leaderBusy(n) && running == 0) {
 				out = append(out, c30Step{A: "dstart", N: n, Src: "map"})
 			}
 		}
@@ -398,7 +401,7 @@ func (r *c30Run) enabled(rng *verifRNG, guarded bool, failPct int) []c30Step {
 			if !d.th.Last.Finished {
 				out = append(out, c30Step{A: "deact", N: n, I: i, OK: outcome()})
 			}
-			if !guarded && d.pid.isActive() && rng.intn(4) == 0 {
+			if !noOverlap && d.pid.isActive() && rng.intn(4) == 0 {
 				out = append(out, c30Step{A: "dstart", N: n, Src: "thr", I: i})
 			}
 		}
@@ -440,7 +443,7 @@ func c30RunScript(t testing.TB, w *c30World, sc c30Script, idx int) c30Trace {
 	if sc.Mode == "random" {
 		rng := newVerifRNG(sc.Seed)
 		for i := 0; i < sc.MaxSteps; i++ {
-			en := run.enabled(rng, sc.Guarded, sc.FailPct)
+			en := run.enabled(rng, sc.Flavor, sc.FailPct)
 			if len(en) == 0 {
 				break
 			}
